@@ -79,6 +79,7 @@ class Ob(object):
             return
         pc.solver.push()
         n = len(pc.facts)
+        saved_yes = dict(pc._yes)
         if cond is not True:
             pc.add(cond)
         try:
@@ -86,6 +87,8 @@ class Ob(object):
         finally:
             pc.solver.pop()
             del pc.facts[n:]
+            pc._yes = saved_yes
+            pc._no = {}
 
     # ---- obligations
     def _add(self, name, kind, status, detail=None):
